@@ -67,12 +67,12 @@ def pk1(ctx: Ctx):
     return fields
 
 
-def sh4(ctx: Ctx, shapes: Shapes):
+def sh4(ctx: Ctx, shapes: Shapes, only_keys=None):
     """Eager cache entries written by the parsing constructor vs the lazy definition of the same accessor,
     evaluated at the constructor's exit with the slots bound to what the constructor stored."""
     model = ctx.model
     rule = "SH4"
-    ctx.rule(rule, floor=8, what="each pre-filled cache entry agrees with the lazy definition of that accessor")
+    ctx.rule(rule, floor=8 if only_keys is None else 0, what="each pre-filled cache entry agrees with the lazy definition of that accessor")
     methods = model.methods("_url", "URL")
     fillers = {}
     for name, fi in methods.items():
@@ -142,6 +142,8 @@ def sh4(ctx: Ctx, shapes: Shapes):
                 results.setdefault((k, tuple(x[0] for x in bad)), []).append((cond, verdicts, node, bad))
         _sh4c(ctx, model, shapes, fi, methods, fillers, results)
         for (k, bad), lst in results.items():
+            if only_keys is not None and not any(k == x or k.startswith(x + " ") for x in only_keys):
+                continue        # this property claims the entries its own clauses read (e.g. the comparison keys)
             ctx.instance(rule)
             cond, verdicts, node = lst[0][:3]
             if bad:
